@@ -64,8 +64,8 @@ CLAIMS = {
    text='All 1600 (key form, proof class)^2 combinations are decided on the model (negative control: second membership check dropped) and executed on the real SPOCKVerify in both orders; Prove/VerifyAgainstData compared with Sign/Verify.',
    note='H(m) from the reference hash-to-curve.'),
  'C18': dict(level='model_checking', design='5 C18, 4.2',
-   technique='TLC linearisability checking of recorded concurrent histories of the real object against the sequential specification (ThresholdSigLin.tla), plus TLC check of the object invariants (ThresholdSigSeq.tla) and their refinement of an abstract share pool whose invariant Apalache proves inductive for every group size up to 12 (ThresholdSigAbs/Ind.tla)',
-   text='Goroutines hammer one real inspector/participant; invocations and responses are stamped with one atomic counter; TLC searches a linearisation for every history (rejection = violation); a corrupted history must be rejected (negative control). The sequential invariants are in addition proved inductive (Apalache, symbolic n <= 12 and t) on an abstraction that ThresholdSig.tla refines (TLC).',
+   technique='TLC linearisability checking of recorded concurrent histories of the real object against the sequential specification (ThresholdSigLin.tla), plus TLC check of the object invariants (ThresholdSigSeq.tla) and their refinement of an abstract share pool whose invariant is proved inductive by Apalache for every group size up to 12 and by TLAPS for all N, T (ThresholdSigAbs/Ind/Proof.tla)',
+   text='Goroutines hammer one real inspector/participant; invocations and responses are stamped with one atomic counter; TLC searches a linearisation for every history (rejection = violation); a corrupted history must be rejected (negative control). The sequential invariants are in addition proved inductive (Apalache for symbolic n <= 12 and t; TLAPS for all n, t: 94 obligations) on an abstraction that ThresholdSig.tla refines (TLC).',
    note='Only schedules the Go scheduler produces (with yields) are explored.'),
 
  'C09': dict(level='fault_enumeration', design='5 C09, 4.6',
